@@ -285,6 +285,48 @@ mod verif_kani_slicer {
 
     #[kani::proof]
     #[kani::unwind(10)]
+    fn slicer_dbg_build_only() {
+        let rx = any_rx(&[]);
+        let r = mk(0, 0xff, vec![mk(1, rx[1], vec![])]);
+        assert!(r.children.len() == 1);
+        core::mem::forget(r);
+    }
+    #[kani::proof]
+    #[kani::unwind(10)]
+    fn slicer_dbg_leaf_apply() {
+        let rx = any_rx(&[]);
+        let leaf = mk(1, rx[1], vec![]);
+        let allowed: u8 = kani::any();
+        let mut st = ShimState { allowed, rx, walks: 0, metrics: ShimMetrics { slicer_leftover_us: 0 }, stats: ShimStats { slices_applied: 0 } };
+        let mut rec = ParserRecognizer { st: &mut st };
+        let mut set = SimpleVob::alloc_with_capacity(VOCAB, VOCAB + 1);
+        let r = leaf.apply(&mut rec, &mut set);
+        let t: u32 = kani::any();
+        kani::assume((t as usize) < VOCAB);
+        assert!(set.is_allowed(t) == (r && rx[1] & (1 << t) != 0));
+        core::mem::forget(leaf);
+        core::mem::forget(set);
+    }
+    #[kani::proof]
+    #[kani::unwind(10)]
+    fn slicer_dbg_root_apply() {
+        let rx = any_rx(&[]);
+        let root = mk(0, 0xff, vec![mk(1, rx[1], vec![])]);
+        let allowed: u8 = kani::any();
+        let mut st = ShimState { allowed, rx, walks: 0, metrics: ShimMetrics { slicer_leftover_us: 0 }, stats: ShimStats { slices_applied: 0 } };
+        let mut rec = ParserRecognizer { st: &mut st };
+        let mut set = SimpleVob::alloc_with_capacity(VOCAB, VOCAB + 1);
+        let r = root.apply(&mut rec, &mut set);
+        let t: u32 = kani::any();
+        kani::assume((t as usize) < VOCAB);
+        if r {
+            assert!(set.is_allowed(t) == (allowed & (1 << t) != 0));
+        }
+        core::mem::forget(root);
+        core::mem::forget(set);
+    }
+    #[kani::proof]
+    #[kani::unwind(10)]
     fn slicer_apply_one_child() {
         let rx = any_rx(&[]);
         run_apply(rx, mk(0, 0xff, vec![mk(1, rx[1], vec![])]));
